@@ -466,8 +466,8 @@ def in_lmax(toks, table=BUILTINS):
         memo[key] = frozenset(res)
         return memo[key]
 
-    def items(i, close, pair):
-        """ends after the closing delimiter of `item (, item)* ,? close` or `close`"""
+    def items(i, close, pair, trailing=True):
+        """ends after the closing delimiter of `item (, item)* ,? close` or `close` (the trailing comma only in lists and maps)"""
         res = set()
         if isdel(i, close):
             res.add(i + 1)
@@ -489,7 +489,7 @@ def in_lmax(toks, table=BUILTINS):
                 if isdel(e, close):
                     res.add(e + 1)
                 if e < n and kinds[e] == "comma":
-                    if isdel(e + 1, close):
+                    if trailing and isdel(e + 1, close):
                         res.add(e + 2)
                     starts.add(e + 1)
         return res
@@ -506,7 +506,7 @@ def in_lmax(toks, table=BUILTINS):
                 res.add(i + 1)
             elif k == "func":
                 if isdel(i + 1, "("):
-                    res |= items(i + 2, ")", False)
+                    res |= items(i + 2, ")", False, trailing=False)
             elif k == "delim":
                 if texts[i] == "(":
                     for e in expr(i + 1):
@@ -1100,8 +1100,7 @@ class Evaluator:
             if not nums:
                 raise EvalErr("no arguments")
             return ("n", min(nums) if name == "min" else max(nums))
-        if not nums:
-            raise Abstain("empty sum/mul")
+        # the empty sum is 0 and the empty product is 1 (identity elements; min / max of nothing have none and fail)
         acc = Fraction(0) if name == "sum" else Fraction(1)
         for x in nums:
             acc = (acc + x) if name == "sum" else (acc * x)
